@@ -67,6 +67,13 @@ fn main() {
         Some("digests") if args.len() >= 8 => cmd_digests(&args[2..]),
         Some("replay") if args.len() >= 3 => cmd_replay(&args[2]),
         Some("show") if args.len() >= 6 => cmd_show(&args[2..]),
+        Some("dict") => {
+            // the dictionary of the current /repo/src, one word per line (-> sim/baseline_dict.txt)
+            for w in gen::harvested_at_words().iter().chain(gen::harvested_idents().iter()) {
+                println!("{w}");
+            }
+            0
+        }
         _ => {
             eprintln!("usage: sim check <C11|C12|C13> <quick|thorough> | sim replay <file> | sim show <prop> <tier> <seed> <run> | sim digests <prop> <tier> <seed> <from> <to> <threads>");
             2
@@ -92,6 +99,9 @@ fn cmd_show(a: &[String]) -> i32 {
     let run: usize = a[3].parse().unwrap_or(0);
     let (s, desc) = scn::generate(seed, prop, run, thorough);
     println!("# knobs: {desc}");
+    println!("# harvested @words: {:?}", gen::harvested_at_words());
+    println!("# harvested identifiers: {}", gen::harvested_idents().len());
+    println!("# novel words (not in baseline_dict.txt): {:?}", gen::novel_words());
     println!("{}", scn::to_json(&s).to_string_pretty());
     let r = scn::run(prop, &s);
     println!("# gen_digest={:016x} out_digest={:016x} nontrivial={}", r.gen_digest, r.out_digest, r.nontrivial);
@@ -115,6 +125,18 @@ fn cmd_digests(a: &[String]) -> i32 {
     let from: usize = a[3].parse().unwrap_or(0);
     let to: usize = a[4].parse().unwrap_or(0);
     let th: usize = a[5].parse().unwrap_or(1);
+    // Give this process a past of its own before it runs anything: lazily initialised
+    // process-wide state (a static table, an interner, a cache) then starts from another
+    // first use than in the parent, and shows up as an output mismatch between processes.
+    let salt: u64 = a.get(6).and_then(|s| s.parse().ok()).unwrap_or(0);
+    if salt != 0 {
+        for j in 0..12usize {
+            let (s, _) = scn::generate(rng::mix2(seed, salt), Prop::C12, j, false);
+            let _ = scn::run(Prop::C12, &s);
+            let (s, _) = scn::generate(rng::mix2(seed, salt), Prop::C13, j, false);
+            let _ = scn::run(Prop::C13, &s);
+        }
+    }
     let res = pool::run_indexed(
         to.saturating_sub(from),
         th,
@@ -314,14 +336,22 @@ fn seam_audit() -> (Vec<String>, J) {
     (notes, j)
 }
 
-fn selfcheck(prop: Prop, tier: &str, seed: u64, n: usize, mine: &[(u64, u64)]) -> Result<(J, Option<usize>), String> {
+fn selfcheck(prop: Prop, tier: &str, seed: u64, n: usize, n_wide: usize, mine: &[(u64, u64)]) -> Result<(J, Option<usize>), String> {
     // The same runs in two other processes with other worker counts must give the same digests.
     let exe = std::env::current_exe().map_err(|e| e.to_string())?;
     let mut mismatch_out: Option<usize> = None;
     let mut compared = 0usize;
-    for th in [3usize, 16] {
+    // child 1: another worker count on the first n runs; child 2: more runs (what differs
+    // between processes may need a rare input to show)
+    // (worker threads, runs, salt of the child's own past); the thorough tier asks more processes
+    let mut plan: Vec<(usize, usize, u64)> = vec![(3, n, 3), (16, n_wide.max(n), 16)];
+    if tier == "thorough" {
+        plan.push((16, (n_wide / 4).max(n), 5));
+        plan.push((8, (n_wide / 4).max(n), 7));
+    }
+    for (th, n, salt) in plan {
         let out = Command::new(&exe)
-            .args(["digests", prop.id(), tier, &seed.to_string(), "0", &n.to_string(), &th.to_string()])
+            .args(["digests", prop.id(), tier, &seed.to_string(), "0", &n.to_string(), &th.to_string(), &salt.to_string()])
             .output()
             .map_err(|e| format!("selfcheck: cannot run child: {e}"))?;
         if !out.status.success() {
@@ -357,11 +387,14 @@ fn selfcheck(prop: Prop, tier: &str, seed: u64, n: usize, mine: &[(u64, u64)]) -
         if seen < n.min(mine.len()) {
             return Err(format!("selfcheck: child reported {seen} of {n} runs"));
         }
+        let _ = th;
         compared += seen;
     }
     let j = J::obj()
-        .set("runs_compared_across_processes", J::u(n.min(mine.len()) as u64))
+        .set("runs_compared_across_processes", J::u(n_wide.max(n).min(mine.len()) as u64))
         .set("process_worker_counts", J::Arr(vec![J::u(threads() as u64), J::u(3), J::u(16)]))
+        .set("child_processes", J::u(if tier == "thorough" { 4 } else { 2 }))
+        .set("child_process_pasts", J::s("every child first executes 24 unrelated history runs of its own (salted seed), so that lazily initialised process-wide state starts from another first use than in the parent"))
         .set("digest_comparisons", J::u(compared as u64))
         .set("output_mismatch_at_run", match mismatch_out {
             Some(i) => J::u(i as u64),
@@ -426,7 +459,14 @@ fn cmd_check(prop_s: &str, tier: &str) -> i32 {
                 };
             }
             let (s, desc) = scn::generate(seed, prop, i, thorough);
+            let t_run = Instant::now();
             let out = scn::run(prop, &s);
+            if let Some(limit) = env_u64("VERIF_SLOW_S") {
+                let el = t_run.elapsed().as_secs_f64();
+                if el > limit as f64 {
+                    eprintln!("slow run {i}: {el:.1}s knobs: {}", &desc[..desc.len().min(160)]);
+                }
+            }
             Summary { out, desc, capped: false }
         },
         |r| match &r.out.violation {
@@ -533,7 +573,8 @@ fn cmd_check(prop_s: &str, tier: &str) -> i32 {
     let mut selfcheck_json = J::obj().set("result", J::s("skipped (a violation was found first)"));
     let mut cross_process: Option<usize> = None;
     if sc_n > 0 {
-        match selfcheck(prop, tier, seed, sc_n, &digests[..sc_n]) {
+        let sc_wide = (if thorough { 20_000 } else { 1_500 }).min(digests.len());
+        match selfcheck(prop, tier, seed, sc_n, sc_wide, &digests[..sc_wide.max(sc_n)]) {
             Ok((j, m)) => {
                 selfcheck_json = j;
                 cross_process = m;
